@@ -4,6 +4,7 @@ package main
 // tree, one child process per program or session.
 
 import (
+	"io"
 	"bytes"
 	"context"
 	"errors"
@@ -22,6 +23,8 @@ type CLIOpts struct {
 	Name    string // script file name (default case.bn)
 	Stdin   string
 	NoStdin bool // close stdin instead of piping
+	Chunks  []string      // if set: stdin is delivered as these pieces, ChunkGap apart (how input arrives must not matter)
+	ChunkGap time.Duration
 	Merge   bool // stdout and stderr on one pipe (ordering)
 	Env     []string
 	Timeout time.Duration
@@ -57,7 +60,19 @@ func RunCLI(o CLIOpts) *Obs {
 	defer cancel()
 	cmd := exec.CommandContext(ctx, o.Bin, args...)
 	cmd.Env = append([]string{"PATH=/usr/bin:/bin", "HOME=/tmp", "GOTRACEBACK=single"}, o.Env...)
-	if !o.NoStdin {
+	if len(o.Chunks) > 0 {
+		pr, pw := io.Pipe()
+		cmd.Stdin = pr
+		go func() {
+			for _, ch := range o.Chunks {
+				time.Sleep(o.ChunkGap)
+				if _, err := pw.Write([]byte(ch)); err != nil {
+					break
+				}
+			}
+			pw.Close()
+		}()
+	} else if !o.NoStdin {
 		cmd.Stdin = bytes.NewReader([]byte(o.Stdin))
 	}
 	var so, se limitedBuf
